@@ -164,7 +164,7 @@ CHECKS.update({
                 note="The byte-level space is sampled, not enumerated.",
                 technique="TLA+ mutation model enumerated by TLC + trace validation against the pipeline specification"),
     "C19": dict(level="exploration", design="§6 C19",
-                text="63 scalable families (7 kinds of branch point x 9 positions of the rest of the program, sequenced and nested) at depth "
+                text="70 scalable families (7 kinds of branch point x 10 positions of the rest of the program, sequenced and nested) at depth "
                      "4, 8, 12, 16 through the real pipeline; spec/Sizes.tla evaluates Growth "
                      "(s(16) <= 10 s(8), s(12) <= 40 s(4)) and Quadratic on the measured node / instruction counts of every stage.",
                 note="Weakest claim: TLC only evaluates the bound on measurements.",
